@@ -367,6 +367,9 @@ class C18(Base):
         return None
 
     def predicate(self, case, impl_obs):
+        if "VEC-PROVIDER-DISAGREE" in impl_obs:
+            return ("the built-in locales provider (Vec<LanguageIdentifier>) does not hand over exactly the locales it holds "
+                    "(tried with und, und-Latn, en-US, und-Cyrl-RS appended): the source would not be consulted with the current locales")
         if "SYNC-API-DISAGREE" in impl_obs:
             return ("a bundle set obtained before a mode change no longer answers its synchronous request API from the state it "
                     "was created in: " + impl_obs[impl_obs.index("SYNC-API-DISAGREE"):][:160])
